@@ -485,3 +485,10 @@ def singleton_len(x):
 
 def all_same_len(s, x):
     return len(s)
+
+
+def repeat_none(xs):
+    # round 4: `[c] * n` with a symbolic count
+    out = [None] * len(xs)
+    zeros = len(xs) * [0]
+    return out, zeros
